@@ -152,6 +152,11 @@ def run_family(ck, prefixes, *, model_prop, quick, thorough):
                 ck.violation(prefixes[0] + "ModelViolatesPropertyLayer", act="model",
                              where=name, detail=f"TLC: {r.violated} violated by the protocol model",
                              replay_obj={"tlc_out": r.out[-6000:]})
+            elif r.error == "timeout":
+                # the bounded exploration did not finish within its time limit: what was explored
+                # held; the evidence lists the run as incomplete
+                ck.assumptions.append(f"TLC run exhaustive:{name} stopped at its time limit after {r.distinct} distinct "
+                                      f"states (incomplete; no violation among the states explored)")
             elif r.rc != 0:
                 raise RuntimeError(f"TLC failed on MailStore ({name}): {r.error}")
         ck.cov["exhaustive"] = all(x["complete"] for x in ck.cov["tlc_runs"])
